@@ -181,6 +181,21 @@ func storesTo(root ast.Node, info *types.Info, field *types.Var, deep bool) []St
 					out = append(out, Store{Node: s, RHS: s.Value, Kind: "complit"})
 				}
 			}
+		case *ast.CompositeLit:
+			// positional struct literal
+			if len(s.Elts) > 0 {
+				if _, isKV := s.Elts[0].(*ast.KeyValueExpr); !isKV {
+					if tv, ok := info.Types[s]; ok && tv.Type != nil {
+						if stt, ok := tv.Type.Underlying().(*types.Struct); ok {
+							for i, e := range s.Elts {
+								if i < stt.NumFields() && sameField(stt.Field(i), field) {
+									out = append(out, Store{Node: s, RHS: e, Kind: "complit"})
+								}
+							}
+						}
+					}
+				}
+			}
 		case *ast.UnaryExpr:
 			if s.Op == token.AND && sameField(fieldOfSel(info, s.X), field) {
 				out = append(out, Store{Node: s, LHS: s.X, Kind: "addr"})
